@@ -149,7 +149,7 @@ class Gen:
             return self.binary_I(op, depth)
         if fam == "div":
             e = self.binary_I(r.choice(DIVS), depth)
-            if "k" in e["b"] and r.random() < 0.9:
+            if "k" in e["b"] and (r.random() < 0.9 or self.cfg.get("no_const_zero_divisor")):
                 e["b"] = const(self.small_const(nonzero=True))
             return e
         if fam == "bits":
@@ -416,6 +416,7 @@ class CodeGen:
         self.rid = 0
         self.sites = {}       # site id -> static info
         self.regions = []     # stack of model variable names
+        self.region_ids = []  # stack of (rid, branch) of the enclosing regions
         self.fn = 0
         self.origin = {}      # variable name -> description of the statement that made it
 
@@ -425,6 +426,7 @@ class CodeGen:
 
     def new_site(self, info):
         self.site += 1
+        info["rstack"] = tuple(self.region_ids)
         self.sites[self.site] = info
         return self.site
 
@@ -507,19 +509,27 @@ class CodeGen:
     # -- statements
     def wrap_try(self, s, emit_body, fallback=None):
         if s.get("try"):
-            k = self.new_site({"kind": "caught", "stmt": s.get("s")})
+            k = self.new_site({"kind": "caught", "stmt": s.get("s"), "desc": self.stmt_desc(s)})
             self.emit("try:")
             self.ind += 1
             emit_body()
             self.ind -= 1
             self.emit("except __CAUGHT__ as __e:")
             self.ind += 1
-            self.emit("__caught__(%d, __e)" % k)
+            self.emit("__caught__(%d, __e, %s)" % (k, self.model_expr()))
             if fallback:
                 self.emit(fallback)
             self.ind -= 1
         else:
             emit_body()
+
+    def stmt_desc(self, s):
+        k = s.get("s")
+        if k == "let":
+            return self.describe(s["e"])
+        if k == "assert":
+            return {"op": "assert_" + s["kind"]}
+        return {"op": k}
 
     def st(self, s):
         getattr(self, "st_" + s["s"])(s)
@@ -587,12 +597,17 @@ class CodeGen:
             self.emit("%s = %s" % (cnm, csrc))
             self.emit("%s = [__cv__(%s)]" % (mnm, cnm))
             self.regions.append(mnm)
+            self.region_ids.append((rid, "t"))
             self.region_body(s["body"], fname)
+            self.region_ids.pop()
             self.regions.pop()
             self.emit("__enter__(%d)" % rid)
             self.emit("try:")
             self.ind += 1
-            self.emit("guarded(%s)(%s)()" % (cnm, fname))
+            if self.mode == "unguarded":
+                self.emit("if __cv__(%s) == 1: %s()" % (cnm, fname))
+            else:
+                self.emit("guarded(%s)(%s)()" % (cnm, fname))
             self.ind -= 1
             self.emit("finally:")
             self.ind += 1
@@ -616,15 +631,22 @@ class CodeGen:
             self.emit("%s = [__cv__(%s)]" % (mt, cnm))
             self.emit("%s = [1 - __cv__(%s)]" % (mf, cnm))
             self.regions.append(mt)
+            self.region_ids.append((rid, "t"))
             self.region_body(s["true"], ft, s["tret"])
+            self.region_ids.pop()
             self.regions.pop()
             self.regions.append(mf)
+            self.region_ids.append((rid, "f"))
             self.region_body(s["false"], ff, s["fret"])
+            self.region_ids.pop()
             self.regions.pop()
             self.emit("__enter__(%d)" % rid)
             self.emit("try:")
             self.ind += 1
-            self.emit("_t%d = if_then_else(%s, %s, %s)" % (rid, cnm, ft, ff))
+            if self.mode == "unguarded":
+                self.emit("_t%d = (%s() if __cv__(%s) == 1 else %s()) + 0" % (rid, ft, cnm, ff))
+            else:
+                self.emit("_t%d = if_then_else(%s, %s, %s)" % (rid, cnm, ft, ff))
             self.ind -= 1
             self.emit("finally:")
             self.ind += 1
